@@ -41,7 +41,7 @@ CHECKS = {
         'lean_modules': ['Pangaea.Theorems.C15'],
         'theorem_modules': ['Pangaea.Theorems.C15'],
         'theorems': ['Pangaea.C15.evalBody_eq_spec', 'Pangaea.C15.defers_are_reached', 'Pangaea.C15.evalDefer_log', 'Pangaea.C15.evalStmts_outcome'],
-        'harness': ['C15'],
+        'harness': ['C15', 'C15core'],
         'shards': 14,
         'spec_is_function': True,
         'exhaustive': True,
@@ -50,7 +50,7 @@ CHECKS = {
                 'random bodies up to 6 statements with 2-4 nested functions. Observables: stdout marker sequence + final value / error kind and message, vs the Lean statement-list model '
                 'and the declarative reference. non-trivial = body has a defer and a statement that can leave the body; distinct by program text',
         'trusted_base': [KERNEL, AX, TIE, 'model Pangaea/Eval/Stmts.lean is a hand transcription of evaluator/eval_program.go (_evalStmts, evalDefer, evalStmts); the statement evaluator is abstract in the theorems and instantiated by a small statement language in Pangaea/Drv/C15.lean'],
-        'assumptions': ['statement and deferred-expression semantics are arbitrary state transformers in the theorems', 'guard truthiness is covered by C12; here guards are literals of known truthiness'],
+        'assumptions': ['statement and deferred-expression semantics are arbitrary state transformers in the theorems', 'guard truthiness is covered by C12; in the statement-list model guards are literals of known truthiness; guards that read reassigned variables, print or raise are covered by the generated programs run against the Core evaluator (C15core)'],
     },
     'C20': {
         'lean_modules': ['Pangaea.Theorems.C20'],
@@ -59,7 +59,9 @@ CHECKS = {
         'theorems': ['Pangaea.C20.generated_balanced', 'Pangaea.C20.generated_nonempty', 'Pangaea.C20.race_free_balanced', 'Pangaea.C20.race_free_generated'],
         'harness': ['C20'],
         'race': True,
-        'race_filter': r'hashtable\.go|symHashTable|strTable|GetSymHash|SymHash2Str',
+        # evaluations run in separate scopes and share no program value: whatever two of them race on inside the
+        # interpreter's packages is state the interpreter shares between evaluations
+        'race_filter': r'github\.com/Syuparn/pangaea/(object|evaluator|props|di|parser|ast|native|runscript)',
         'spec_is_function': True,
         'rule': 'translator: the lock/access sequence of every function of package object touching symHashTable/strTable/lock is regenerated from source and checked (decide) to be balanced; '
                 'sampled schedules: 8 (16 thorough) goroutines x 60 (400) rounds in a -race build interning fresh symbols (identifiers, object keys, JSON keys, fresh property names, direct API) '
@@ -171,7 +173,7 @@ CHECKS = {
         'theorem_modules': ['Pangaea.Theorems.C12'],
         'theorems': ['Pangaea.C12.one_rule', 'Pangaea.C12.if_then_only', 'Pangaea.C12.if_else_only', 'Pangaea.C12.shortcut_decided',
                      'Pangaea.C12.shortcut_undecided', 'Pangaea.C12.shortcut_by_truthiness', 'Pangaea.C12.guard_spec'],
-        'harness': ['C12', 'C12core'],
+        'harness': ['C12', 'C12core', 'C12sweep'],
         'shards': 8,
         'spec_is_function': True,
         'exhaustive': True,
